@@ -626,12 +626,44 @@ namespace eitq
                         });
     }
 
+    // the stored 4-keys in array order and the handle lookups in vector order (for the lock-step with the Lean model of
+    // ReverseQueue, drv_revqueue); costs are integer-valued doubles in this world
+    static std::string dumpKL(World &w, eit::ReverseQueue &q)
+    {
+        auto num = [](double v) {
+            if (v != std::floor(v) || std::fabs(v) > 1e15)
+                return std::string("x") + vp::bits(v);
+            return std::to_string((long long)v);
+        };
+        std::string s = "K n=" + std::to_string(q.queue_.vector_.size());
+        for (auto *e : q.queue_.vector_)
+            s += " " + w.edgeId(std::get<4>(e->data)) + ":" + num(std::get<0>(e->data).value()) + ":" + num(std::get<1>(e->data).value()) +
+                 ":" + std::to_string(std::get<2>(e->data)) + ":" + std::to_string(std::get<3>(e->data));
+        s += " | L";
+        for (size_t i = 0; i < w.rverts.size(); ++i)
+        {
+            auto &lk = w.rverts[i]->outgoingReverseQueueLookup_;
+            if (lk.empty())
+                continue;
+            s += " " + std::to_string(i) + "=";
+            for (size_t k = 0; k < lk.size(); ++k)
+            {
+                // read through the handle only if it is a live element of the queue (a dangling handle prints "?")
+                bool liveH = std::find(q.queue_.vector_.begin(), q.queue_.vector_.end(), lk[k]) != q.queue_.vector_.end();
+                s += (k ? "," : "") + (liveH ? w.edgeId(std::get<4>(lk[k]->data)) : std::string("?"));
+            }
+        }
+        return s;
+    }
+
     static int runRQ(const std::vector<std::string> &hdr)
     {
         auto m = kv(hdr, 1);
         World w;
         eit::ReverseQueue q(w.obj, w.space, m.at("order") == "cost");
-        auto fin = [&](const std::string &res) { std::cout << res << " | " << dumpRQ(w, q, "rq", true, true) << "\n"; };
+        auto fin = [&](const std::string &res) {
+            std::cout << res << " | " << dumpRQ(w, q, "rq", true, true) << " | " << dumpKL(w, q) << "\n";
+        };
         std::string line;
         while (vp::readLine(line))
         {
@@ -756,6 +788,14 @@ namespace eitq
         std::string s = "F n=" + std::to_string(q.size()) + " :";
         for (auto &r : rows)
             s += " " + r.second;
+        // the container's iteration order (begin() and the tie-breaks of min/max_element depend on it) is an INPUT of the
+        // front-selection rule as coded; it is handed to the model as such and never compared with anything
+        s += " | O";
+        for (const auto &el : q.queue_)
+        {
+            const auto &e = el.second.second;
+            s += " " + (w ? w->edgeId(e) : std::to_string(e.source->getId()) + ">" + std::to_string(e.target->getId()));
+        }
         return s;
     }
 
@@ -847,10 +887,43 @@ namespace eitq
 // ================================================================================================ planners
 namespace plan
 {
-    static std::string none(...)
+    // validity checker that, every `every`-th call, lets the harness look at the planner's queues FROM INSIDE the planner's
+    // loops (sample validation, the collision checks of the edge just taken from the queue, sparse checks of the reverse
+    // search): these calls happen between queue operations, never in the middle of one
+    class DumpingChecker : public ob::StateValidityChecker
     {
-        return std::string();
-    }
+    public:
+        DumpingChecker(const ob::SpaceInformationPtr &si, vp::Env env, unsigned long every, unsigned long cap)
+          : ob::StateValidityChecker(si), env_(std::move(env)), every_(every), cap_(cap)
+        {
+        }
+        bool isValid(const ob::State *state) const override
+        {
+            std::vector<double> r;
+            si_->getStateSpace()->copyToReals(r, state);
+            bool v = si_->satisfiesBounds(state) && !env_.collides(r);
+            ++calls_;
+            if (every_ && hook && !inHook_ && calls_ % every_ == 0 && emitted_ < cap_)
+            {
+                inHook_ = true;
+                ++emitted_;
+                std::cout << "cb " << calls_ << " | " << hook() << "\n";
+                inHook_ = false;
+            }
+            return v;
+        }
+        std::function<std::string()> hook;
+        void newSolve() const
+        {
+            emitted_ = 0;
+        }
+
+    private:
+        vp::Env env_;
+        unsigned long every_, cap_;
+        mutable unsigned long calls_{0}, emitted_{0};
+        mutable bool inHook_{false};
+    };
 
     static std::string dumpBIT(og::BITstar &p)
     {
@@ -952,7 +1025,9 @@ namespace plan
         auto space = std::make_shared<ob::RealVectorStateSpace>(2);
         space->setBounds((double)needInt(m.at("lo")), (double)needInt(m.at("hi")));
         auto si = std::make_shared<ob::SpaceInformation>(space);
-        si->setStateValidityChecker(std::make_shared<vp::RecordingValidityChecker>(si, env, false));
+        auto checker = std::make_shared<DumpingChecker>(si, env, m.count("cb") ? (unsigned long)needInt(m.at("cb")) : 0UL,
+                                                        m.count("cbcap") ? (unsigned long)needInt(m.at("cbcap")) : 40UL);
+        si->setStateValidityChecker(checker);
         si->setStateValidityCheckingResolution(0.02);
         si->setup();
         auto pdef = std::make_shared<ob::ProblemDefinition>(si);
@@ -995,9 +1070,27 @@ namespace plan
             std::cout << "bad-header\n";
             return 2;
         }
+        // non-default planner parameters (k-nearest vs r-disc graphs, pruning on/off, …): `par=name:value,name:value`
+        if (m.count("par") && m.at("par") != "-")
+        {
+            std::string cur;
+            for (char c : m.at("par") + ",")
+                if (c == ',')
+                {
+                    auto p = cur.find(':');
+                    if (p != std::string::npos && planner->params().hasParam(cur.substr(0, p)))
+                        planner->params().setParam(cur.substr(0, p), cur.substr(p + 1));
+                    cur.clear();
+                }
+                else
+                    cur += c;
+        }
         planner->setProblemDefinition(pdef);
         planner->setup();
         auto dump = [&]() { return bit ? dumpBIT(*bit) : ait ? dumpAIT(*ait) : dumpEIT(*eit); };
+        checker->hook = dump;
+        // only AIT* needs it (re-tested on the current tree): BIT*/ABIT*/EIT*/EIRM* return from solve() after the optimum
+        const bool guard = name == "AITstar" && (!m.count("guard") || m.at("guard") != "0");
         std::string line;
         while (vp::readLine(line))
         {
@@ -1010,7 +1103,8 @@ namespace plan
                 {
                     // once the straight start-goal segment itself is the solution the informed set has measure zero and the
                     // planners' rejection sampling never returns (not a heap matter): do not call solve() again
-                    if (pdef->hasExactSolution() &&
+                    checker->newSolve();
+                    if (guard && pdef->hasExactSolution() &&
                         pdef->getSolutionPath()->length() <= si->distance(st.get(), gl.get()) * (1.0 + 1e-12))
                     {
                         std::cout << "status=optimal-skip | " << dump() << "\n";
@@ -1020,6 +1114,14 @@ namespace plan
                     c->fireAt = (unsigned long)needInt(t[1]);
                     auto stt = planner->solve(vp::evalCountPtc(c));
                     std::cout << "status=" << vp::statusName(stt) << " | " << dump() << "\n";
+                }
+                else if (t[0] == "clear" && t.size() == 1)
+                {
+                    // history: clear() (queues reset), then the following solve() starts over on the same problem
+                    planner->clear();
+                    pdef->clearSolutionPaths();
+                    planner->setup();
+                    std::cout << "cleared | " << dump() << "\n";
                 }
                 else
                     std::cout << "bad-op\n";
